@@ -40,15 +40,23 @@ def recompose_ok(t, s, acc):
     if t == "user_id":
         if "@" + acc["localpart"] + ":" + acc["server_name"] != s:
             return "localpart/server_name do not recompose"
+        if ":" in acc["localpart"] or "\x00" in acc["localpart"]:
+            return "localpart() contains a colon or NUL"
+        if not ref.server_necessary(acc["server_name"]):
+            return "server_name() is not a server name"
     elif t == "room_alias_id":
         if "#" + acc["alias"] + ":" + acc["server_name"] != s:
             return "alias/server_name do not recompose"
+        if ":" in acc["alias"] or not ref.server_necessary(acc["server_name"]):
+            return "alias() contains a colon or server_name() is not a server name"
     elif t == "event_id":
         want = "$" + acc["localpart"] + (":" + acc["server_name"] if acc["server_name"] is not None else "")
         if want != s:
             return "localpart/server_name do not recompose"
         if (":" in s) != (acc["server_name"] is not None):
             return "server_name presence does not match colon presence"
+        if ":" in acc["localpart"]:
+            return "localpart() contains a colon"
     elif t in ("room_id", "room_or_alias_id"):
         sn = acc["server_name"]
         if sn is not None and s[s.find(":") + 1:] != sn:
